@@ -166,6 +166,55 @@ def _returns(b, cfg, s, loop):
     return any(e in r for e in cfg.exits)
 
 
+def rule_range_render(chk, fb, rid="C04.f"):
+    """A range is written back with its end whenever it has one: `C:C`, `2:3` (an end column or an end row only) are
+    ranges too.  The test in front of the end part of Range::get_range must be true as soon as either end component is
+    present."""
+    import itertools
+    from props.C08 import bool_formula, eval_formula, atoms_of
+
+    r = chk.rule(
+        rid,
+        "a range keeps its end: in the method that renders a Range, the condition under which the end corner is appended, as a boolean function of the presence tests of the end components, is `end column present OR end row present`",
+        floor=1,
+    )
+    d = "structs::range::Range::get_range"
+    h = fb.hir.get(d)
+    if not h:
+        chk.ob(r, "anchor", False, detail="Range::get_range not found")
+        return
+    chk.touch(d)
+    target = None
+    for x in hirq.walk(h["body"]):
+        if x.get("k") == "if" and any(y.get("k") == "mcall" and y.get("name") == "get_coordinate_end" for y in hirq.walk(x["then"])):
+            target = x
+            break
+    if target is None:
+        chk.ob(r, "Range::get_range", True, where=fb.loc(d), nontrivial=False, detail="NOT DECIDED: no `if` around the end corner (another shape)")
+        return
+
+    def atom(n):
+        n = hirq.strip(n)
+        if n.get("k") == "mcall" and n.get("name") in ("is_some", "is_none"):
+            rc = hirq.strip(n["recv"])
+            if rc.get("k") == "field" and rc.get("name") in ("end_col", "end_row"):
+                return (n["name"], rc["name"])
+        return ("?", n.get("ln"))
+
+    f = bool_formula(target["cond"], atom)
+    acc = set()
+    atoms_of(f, acc)
+    if any(a[0] == "?" for a in acc):
+        chk.ob(r, "Range::get_range", True, where=fb.loc(d), nontrivial=False, detail="NOT DECIDED: the condition is not a boolean combination of presence tests of the end components")
+        return
+    bad = []
+    for ec, er in itertools.product((False, True), repeat=2):
+        env = {a: ((ec if a[1] == "end_col" else er) if a[0] == "is_some" else not (ec if a[1] == "end_col" else er)) for a in acc}
+        if bool(eval_formula(f, env)) != (ec or er):
+            bad.append((ec, er))
+    chk.ob(r, "Range::get_range", not bad, where="%s:%s" % (h["file"], target.get("ln")), detail="end appended iff an end component is present: %s" % ("yes" if not bad else "NO - differs for (end column present, end row present) = %s" % bad))
+
+
 def run(chk, fb, tier):
     # C04.a exactly-one escape/unescape per channel
     C01.rule_escape(chk, fb)  # text channel (rule id C01.c)
@@ -180,6 +229,7 @@ def run(chk, fb, tier):
     symmetry.rule_enum_tables(chk, fb, "C04.b.enums")
     symmetry.rule_omitted_defaults(chk, fb, "C04.b.defaults")
     symmetry.rule_attr_fields(chk, fb, "C04.b.fields")
+    rule_range_render(chk, fb)
     symmetry.rule_parsed_as_stored(chk, fb, "C04.b.parsed")
     symmetry.rule_empty_flag_attrs(chk, fb, "C04.b.emptyattrs")
     symmetry.rule_attr_guards(chk, fb, "C04.b.guards")
